@@ -23,6 +23,7 @@ type Ctx struct {
 	Deadline time.Time
 	Seed     int64
 	Args     []string // extra arguments (engine specific)
+	Binary   string   // worker binary ("" = this binary)
 }
 
 func (c *Ctx) Thorough() bool { return c.Tier == "thorough" }
@@ -180,7 +181,11 @@ func RunSharded(ctx *Ctx, n int) *Result {
 			args := []string{"-worker", ctx.ID, ctx.Tier,
 				strconv.Itoa(i), strconv.Itoa(n), out}
 			args = append(args, ctx.Args...)
-			cmd := exec.Command(os.Args[0], args...)
+			bin := os.Args[0]
+			if ctx.Binary != "" {
+				bin = ctx.Binary
+			}
+			cmd := exec.Command(bin, args...)
 			cmd.Env = append(os.Environ(), "GOMAXPROCS=2",
 				"VERIF_DEADLINE="+strconv.FormatInt(ctx.Deadline.Unix(), 10))
 			logf := filepath.Join(dir, fmt.Sprintf("log%d.txt", i))
